@@ -26,26 +26,20 @@ func checkC02(r *harness.Run) harness.Coverage {
 	docs := smallDocs
 	g := univ.NewGen(univ.ProjFragment())
 	keep := func(_ []model.Tok, ast *model.Node) bool { return univ.HasProjection(ast) }
-	exprs := buildExprs(g, maxW, keep)
 	var st conformStats
+	var exprs []exprCase
+	nGen := 0
 	if r.Thorough() {
 		// weight <= 5 against the large document universe, weight 6 against the heterogeneous documents
 		docs = append(univ.Values(2, 2, univ.Js(`null`, `1`, `"a"`, `[]`, `{}`), []string{"a", "b"}), smallDocs...)
-		st = conform(r, exprs, docs, conformOpts{})
-		var w6 []exprCase
-		for _, s := range g.Sentences(6) {
-			toks := g.Tokens(s)
-			ast, _, err := model.Parse(toks)
-			if err == nil && univ.HasProjection(ast) {
-				w6 = append(w6, exprCase{toks, model.Spell(toks, model.Tight), ast})
-			}
-		}
-		st.add(conform(r, w6, append(append([]interface{}{}, projDocs...), collisionDocs...), conformOpts{}))
-		r.Note("weight_6_expressions", len(w6))
-		exprs = append(exprs, w6[:1]...)
+		st, nGen, exprs = conformGen(r, g, maxW, keep, docs, conformOpts{})
+		st6, n6, _ := conformGen(r, g, 6, keep, append(append([]interface{}{}, projDocs...), collisionDocs...), conformOpts{minW: 6})
+		st.add(st6)
+		nGen += n6
+		r.Note("weight_6_expressions", n6)
 		maxW = 6
 	} else {
-		st = conform(r, exprs, docs, conformOpts{})
+		st, nGen, exprs = conformGen(r, g, maxW, keep, docs, conformOpts{})
 	}
 	// long postfix chains (projection scope across several steps) x the heterogeneous documents
 	chainW := 7
@@ -72,7 +66,7 @@ func checkC02(r *harness.Run) harness.Coverage {
 	r.Note("piped_projection_pairs", len(piped))
 	r.Note("postfix_chains", len(chains))
 	r.Note("postfix_chain_weight", chainW)
-	finishConform(r, st, len(exprs)+len(chains)+len(piped), len(docs))
+	finishConform(r, st, nGen+len(chains)+len(piped), len(docs))
 	sampleExprs(r, exprs, docs)
 	return harness.Coverage{Exhaustive: true, Bounds: map[string]interface{}{"expression_weight": maxW, "documents": len(docs)}, Outcomes: distinctOutcomes(st)}
 }
